@@ -78,6 +78,8 @@ struct Out {
 struct OpRun {
     outs: Vec<Out>,
     rng: TapeRng,
+    /// memo of `witness` per output name
+    wcache: std::cell::RefCell<std::collections::HashMap<&'static str, Option<(usize, usize)>>>,
     /// everything the operation returned, concatenated (for whole-output equality)
     all: Vec<u8>,
 }
@@ -188,12 +190,20 @@ impl World<'_> {
             }
             _ => unreachable!(),
         }
-        Ok(OpRun { outs, rng, all })
+        Ok(OpRun { outs, rng, all, wcache: Default::default() })
     }
 
     /// locate the stretch of the tape (offset, len) that witnesses `o`, if the value is taken
     /// from the tape in a recognisable way (verbatim bytes, or a key pair derived from them)
     fn witness(&self, o: &Out, run: &OpRun) -> Option<(usize, usize)> {
+        if let Some(r) = run.wcache.borrow().get(o.name) {
+            return *r;
+        }
+        let r = self.witness_uncached(o, run);
+        run.wcache.borrow_mut().insert(o.name, r);
+        r
+    }
+    fn witness_uncached(&self, o: &Out, run: &OpRun) -> Option<(usize, usize)> {
         let m = &self.m;
         let suite = Suite::of(m);
         match o.w {
